@@ -252,7 +252,7 @@ def validate_traces(trace_files, module, cfg, name, timeout=3600, consts=None):
             open(os.path.join(d, cfg), "w").write(text)
         jobs.append((d, module, cfg, timeout))
     results = []
-    with concurrent.futures.ThreadPoolExecutor(max_workers=max(1, NCPU - 2)) as ex:
+    with concurrent.futures.ThreadPoolExecutor(max_workers=max(1, int(os.environ.get("VERIF_JOBS", NCPU - 2)))) as ex:
         for r, src in zip(ex.map(_validate_one, jobs), srcs):
             r["part"] = src       # index of the trace file (= input part) this result belongs to
             results.append(r)
